@@ -175,23 +175,25 @@ structure ReadResult where
   objectCount : Nat := 0
   uncompressedSize : Nat := 0
 
+/-- the object parser on the uncompressed stream `B` -/
+def parseStream (cap : Nat) (stats : Obj) (usize : Nat) (B : Bytes) : ReadResult :=
+  let ps := objectLoop cap (4 * B.length + 64) { st := { obj := statsDefault, inp := B } }
+  { outcome := ps.outcome.getD .ended, stats := stats, objs := ps.objs.reverse, objectCount := ps.count,
+    uncompressedSize := usize }
+
+/-- what follows the read of the file statistics (`s2`: the compressed file stream behind them) -/
+def readAfterHeader (Z : Zlib) (cap : Nat) (fileLen : Nat) (s2 : St) : ReadResult :=
+  let cs := containerLoop Z cap (fileLen + 2) { st := s2, usize := s2.obj.num 1 }
+  if cs.died then { outcome := .hang, stats := s2.obj, uncompressedSize := cs.usize }
+  else match flattenConts cs.conts.reverse with
+    | none => { outcome := .oob, stats := s2.obj, uncompressedSize := cs.usize }
+    | some B => parseStream cap s2.obj cs.usize B
+
 /-- `File::open(in)`, reading until null, `close()` -/
 def readFile (Z : Zlib) (cap : Nat) (file : Bytes) : ReadResult :=
-  let cfg := stickyCfg cap
-  let s0 : St := { obj := statsDefault, inp := file }
-  let s1 := (Stmt.rd 0 4).exec cfg s0
+  let s1 := (Stmt.rd 0 4).exec (stickyCfg cap) { obj := statsDefault, inp := file }
   if s1.obj.num 0 ≠ FILESIG then { outcome := .openException }
-  else
-    let s2 := statsReadRest.exec cfg s1
-    let stats := s2.obj
-    let cs := containerLoop Z cap (file.length + 2) { st := s2, usize := stats.num 1 }
-    if cs.died then { outcome := .hang, stats := stats, uncompressedSize := cs.usize }
-    else match flattenConts cs.conts.reverse with
-      | none => { outcome := .oob, stats := stats, uncompressedSize := cs.usize }
-      | some B =>
-        let ps := objectLoop cap (4 * B.length + 64) { st := { obj := statsDefault, inp := B } }
-        { outcome := ps.outcome.getD .ended, stats := stats, objs := ps.objs.reverse, objectCount := ps.count,
-          uncompressedSize := cs.usize }
+  else readAfterHeader Z cap file.length (statsReadRest.exec (stickyCfg cap) s1)
 
 /-! ## write side -/
 
